@@ -1,10 +1,15 @@
 import Arp.Lemmas.Trans
+import Arp.Props.C12
+import Mathlib.Algebra.BigOperators.Intervals
 /-!
-# C15 — the constants `e`, `ln2`, `pi`: format and canonicity of the results
+# C15 — the constants `e`, `ln2`, `pi`: format, canonicity, termination
 
-`eConst` and `ln2Const` are total by construction (their loops are structural recursions on the
-syntactic bounds `2·E − 1` and `499` of the Rust `for` loops); `piFuel` returns `none` only when
-the fuel of the open-ended AGM loop (or of an inner `sqrt`) runs out.
+`eConst` and `ln2Const` are total by construction: their loops are structural recursions on
+the bounds of the Rust `for` loops, `max(eLevels(p+1), 2·E) − 1` and `max(500, p+16) − 1`
+(`eLevels_spec`: the level count of `e` collects at least `p + 8` bits).
+`piFuel` returns `none` only when the fuel of the AGM loop (or of an inner `sqrt`) runs out;
+`pi_terminates`: in every well-formed format and every rounding mode some fuel suffices,
+because the gap `|a − b|` must shrink strictly for the loop to go on.
 -/
 namespace Arp.C15
 open Arp
@@ -19,11 +24,76 @@ theorem eConst_canonical (F : Sem) (hF : F.WF) : (eConst F).Canonical ∧ (eCons
   unfold eConst
   simp only
   have hd := div_canonical (Flt.one (F.increasePrecision 1) false)
-    (eLoop (F.increasePrecision 1) ((F.increasePrecision 1).e * 2 - 1) (Flt.one (F.increasePrecision 1) false)) hW
+    (eLoop (F.increasePrecision 1)
+      (Nat.max (eLevels (F.increasePrecision 1).p) ((F.increasePrecision 1).e * 2) - 1)
+      (Flt.one (F.increasePrecision 1) false)) hW
   have h2 := fromU64_canonical (F.increasePrecision 1) 2 hW
   have ha := add_canonical _ (fromU64 (F.increasePrecision 1) 2) (by rw [hd.2]; exact hW)
     (by rw [h2.2, hd.2]; rfl) hd.1 h2.1
   exact (cast_canonical _ F hF ha.1).1
+
+/-! ### the level count of `e` -/
+
+/-- `Σ_{k=2}^{n} ⌊log₂ k⌋`: the number of bits the loop of `e` has collected after `n` levels -/
+def levelBits (n : Nat) : Nat := ∑ k ∈ Finset.Icc 2 n, Nat.log2 k
+
+theorem levelBits_one : levelBits 1 = 0 := by decide
+
+theorem levelBits_succ (n : Nat) (hn : 1 ≤ n) : levelBits (n + 1) = levelBits n + Nat.log2 (n + 1) := by
+  unfold levelBits
+  rw [Finset.sum_Icc_succ_top (by omega)]
+
+theorem one_le_log2 (n : Nat) (hn : 2 ≤ n) : 1 ≤ Nat.log2 n := by
+  rw [Nat.le_log2 (by omega)]; exact hn
+
+/-- invariant of the loop: `bits = levelBits levels`; it leaves with enough bits when the
+    fuel covers the deficit, and the level before the returned one did not have enough -/
+theorem eLevelsLoop_spec (p : Nat) : ∀ (fuel levels : Nat), 1 ≤ levels →
+    p + 8 ≤ levelBits levels + fuel →
+    (levels = 1 ∨ levelBits (levels - 1) < p + 8) →
+    p + 8 ≤ levelBits (eLevelsLoop p fuel levels (levelBits levels)) ∧
+    (eLevelsLoop p fuel levels (levelBits levels) = 1 ∨
+      levelBits (eLevelsLoop p fuel levels (levelBits levels) - 1) < p + 8) ∧
+    levels ≤ eLevelsLoop p fuel levels (levelBits levels) := by
+  intro fuel
+  induction fuel with
+  | zero => intro levels _ h hm; exact ⟨by simpa [eLevelsLoop] using h, by simpa [eLevelsLoop] using hm, by simp [eLevelsLoop]⟩
+  | succ fuel ih =>
+    intro levels hl h hm
+    simp only [eLevelsLoop]
+    split
+    · rename_i hlt
+      have hlog := one_le_log2 (levels + 1) (by omega)
+      rw [← levelBits_succ levels hl]
+      obtain ⟨i1, i2, i3⟩ := ih (levels + 1) (by omega)
+        (by rw [levelBits_succ levels hl]; omega) (Or.inr (by simpa using hlt))
+      exact ⟨i1, i2, by omega⟩
+    · rename_i hge
+      exact ⟨by omega, hm, le_refl _⟩
+
+/-- **the level count of `e` is adequate**: the loop leaves with at least `p + 8` bits,
+    `Σ_{k=2}^{eLevels p} ⌊log₂ k⌋ ≥ p + 8` (so `eLevels p ! ≥ 2^(p+8)`); the fuel `p + 9`
+    suffices because every level contributes at least one bit -/
+theorem eLevels_spec (p : Nat) : p + 8 ≤ ∑ k ∈ Finset.Icc 2 (eLevels p), Nat.log2 k := by
+  have := (eLevelsLoop_spec p (p + 9) 1 (le_refl _) (by rw [levelBits_one]; omega) (Or.inl rfl)).1
+  rw [levelBits_one] at this
+  exact this
+
+/-- … and it is the smallest such level count -/
+theorem eLevels_minimal (p : Nat) : ∑ k ∈ Finset.Icc 2 (eLevels p - 1), Nat.log2 k < p + 8 := by
+  have := (eLevelsLoop_spec p (p + 9) 1 (le_refl _) (by rw [levelBits_one]; omega) (Or.inl rfl)).2.1
+  rw [levelBits_one] at this
+  rcases this with h | h
+  · unfold eLevels; rw [h]; simp
+  · exact h
+
+theorem eLevels_pos (p : Nat) : 1 ≤ eLevels p := by
+  have := (eLevelsLoop_spec p (p + 9) 1 (le_refl _) (by rw [levelBits_one]; omega) (Or.inl rfl)).2.2
+  rw [levelBits_one] at this
+  exact this
+
+example : eLevels 12 = 11 := by decide
+example : eLevels 54 = 22 := by decide
 
 /-! ### `ln2` -/
 
@@ -50,7 +120,7 @@ theorem ln2Const_canonical (F : Sem) (hF : F.WF) : (ln2Const F).Canonical ∧ (l
   unfold ln2Const
   simp only
   exact (cast_canonical _ F hF
-    (ln2Loop_canonical _ hW _ rfl 499 1 _ _ rfl (Flt.zero_canonical _ _)).1).1
+    (ln2Loop_canonical _ hW _ rfl _ 1 _ _ rfl (Flt.zero_canonical _ _)).1).1
 
 /-! ### `pi` -/
 
@@ -61,6 +131,528 @@ theorem piFuel_sem (f : Nat) (F : Sem) (r : Flt) (h : piFuel f F = some r) : r.s
 /-- the result of `pi` (when the fuel suffices) is canonical and has the requested format -/
 theorem piFuel_canonical (f : Nat) (F : Sem) (hF : F.WF) (r : Flt) (h : piFuel f F = some r) :
     r.Canonical ∧ r.sem = F := Arp.piFuel_canonical f F hF r h
+
+
+/-! ### `pi` terminates
+
+The AGM loop goes on only while the gap `|a − b|` shrinks strictly.  Both means stay
+`≥ 1/2` or `+∞` (monotonicity of rounding, and `sqrt` never returns less than a
+representable lower bound of the root), so no NaN arises in `a`, `b`; an infinity makes
+`a == b` two iterations later.  Gaps of finite means are non-NaN values of the format, and a
+strictly decreasing chain of those is finite. -/
+
+section piTermination
+open Arp.Sqrt Arp.SpecRound
+
+/-- a non-negative value that is at least `c`, possibly `+∞` -/
+structure GeN (G : Sem) (c : ℚ) (y : Flt) : Prop where
+  sem : y.sem = G
+  can : y.Canonical
+  sign : y.sign = false
+  big : (y.cat = .normal ∧ c ≤ y.mag) ∨ y.cat = .inf
+
+theorem GeN.posN {G : Sem} {c : ℚ} {y : Flt} (h : GeN G c y) (hc : y.cat = .normal) : PosN G y :=
+  ⟨h.sem, h.can, hc, h.sign⟩
+
+theorem GeN.le_mag {G : Sem} {c : ℚ} {y : Flt} (h : GeN G c y) (hc : y.cat = .normal) : c ≤ y.mag := by
+  rcases h.big with h' | h'
+  · exact h'.2
+  · rw [hc] at h'; cases h'
+
+theorem GeN.cases {G : Sem} {c : ℚ} {y : Flt} (h : GeN G c y) : y.cat = .normal ∨ y.cat = .inf := by
+  rcases h.big with h' | h'
+  · exact Or.inl h'.1
+  · exact Or.inr h'
+
+theorem geN_of_posN {G : Sem} {c : ℚ} {y : Flt} (h : PosN G y) (hc : c ≤ y.mag) : GeN G c y :=
+  ⟨h.sem, h.can, h.sign, Or.inl ⟨h.cat, hc⟩⟩
+
+/-- a value whose `toRes` is the rounding of a magnitude `≥ c` (`c` representable) -/
+theorem geN_of_round {G : Sem} (hG : G.WF) {y : Flt} (hs : y.sem = G) (hcan : y.Canonical)
+    {rm : RM} {q c : ℚ} (hc0 : 0 < c) (hc : IsRep G c) (hq : c ≤ q)
+    (hy : y.toRes = Spec.round G rm false q) : GeN G c y := by
+  have hq0 : 0 < q := lt_of_lt_of_le hc0 hq
+  have k1 := round_mono hG hc0 hq rm false
+  rw [isRep_pos_round hG hc hc0] at k1
+  rcases round_cases hG hq0 rm false with h | h | ⟨e, m, h⟩
+  · rw [h] at k1; simp only [Res.key] at k1
+    have : c ≤ 0 := by exact_mod_cast k1
+    linarith
+  · rw [h] at hy
+    have hh : y.cat = .inf ∧ y.sign = false := by
+      cases hcat : y.cat <;> simp [Flt.toRes, hcat] at hy
+      exact ⟨rfl, hy⟩
+    exact ⟨hs, hcan, hh.2, Or.inr hh.1⟩
+  · obtain ⟨p1, p2⟩ := posN_of_round hG hs hq0 h hy
+    refine ⟨hs, hcan, p1.sign, Or.inl ⟨p1.cat, ?_⟩⟩
+    rw [p2]; unfold rnd; rw [h, Res.mag_fin]
+    rw [h, Res.key_fin] at k1; exact_mod_cast k1
+
+theorem add_geN {G : Sem} (hG : G.WF) {a b : Flt} {c c2 : ℚ} (hc0 : 0 < c2) (hc2 : IsRep G c2)
+    (h2 : c2 ≤ c + c) (ha : GeN G c a) (hb : GeN G c b) :
+    GeN G c2 (a.add b) ∧ ((a.cat = .inf ∨ b.cat = .inf) → (a.add b).cat = .inf) := by
+  have hFa : a.sem.WF := by rw [ha.sem]; exact hG
+  have hs : b.sem = a.sem := hb.sem.trans ha.sem.symm
+  have hcan := add_canonical a b hFa hs ha.can hb.can
+  have hsem : (a.add b).sem = G := hcan.2.trans ha.sem
+  have hsa := ha.sign
+  have hsb := hb.sign
+  rcases ha.cases with hca | hca <;> rcases hb.cases with hcb | hcb
+  · refine ⟨?_, fun h => by rcases h with h | h <;> [rw [hca] at h; rw [hcb] at h] <;> cases h⟩
+    have hc := C01.add_correct a b a.sem.rm hFa hs ha.can hb.can
+    have hq : 0 < a.mag + b.mag := by
+      have := (ha.posN hca).mag_pos; have := (hb.posN hcb).mag_pos; linarith
+    apply geN_of_round hG hsem hcan.1 hc0 hc2 (q := a.mag + b.mag) (rm := a.sem.rm)
+      (by have := ha.le_mag hca; have := hb.le_mag hcb; linarith)
+    show (addWithRm a b a.sem.rm).toRes = _
+    rw [hc, ha.sem]
+    have hva : a.val = a.mag := by rw [Flt.val_normal hca, hsa]; rfl
+    have hvb : b.val = b.mag := by rw [Flt.val_normal hcb, hsb]; rfl
+    simp only [Spec.add, Spec.isNan, Spec.isInf, Spec.isZero, hca, hcb, hva, hvb]
+    simp only [Spec.roundQ, if_neg (ne_of_gt hq), if_pos hq]
+    simp
+  all_goals
+    have hh : (a.add b).cat = .inf ∧ (a.add b).sign = false := by
+      simp [Flt.add, addWithRm, addSub, hca, hcb, hsa, hsb, Flt.inf]
+    exact ⟨⟨hsem, hcan.1, hh.2, Or.inr hh.1⟩, fun _ => hh.1⟩
+
+theorem half_geN {G : Sem} (hG : G.WF) {a : Flt} {c c2 : ℚ} (hc0 : 0 < c2) (hc2 : IsRep G c2)
+    (h2 : c2 ≤ c / 2) (ha : GeN G c a) :
+    GeN G c2 (a.scale (-1) .nte) ∧ (a.cat = .inf → (a.scale (-1) .nte) = a) := by
+  have hFa : a.sem.WF := by rw [ha.sem]; exact hG
+  have hcan := scale_canonical a (-1) .nte hFa ha.can
+  have hsem : (a.scale (-1) .nte).sem = G := hcan.2.trans ha.sem
+  rcases ha.cases with hca | hca
+  · refine ⟨?_, fun h => by rw [hca] at h; cases h⟩
+    have hc := C10.scale_correct a (-1) .nte hFa ha.can
+    apply geN_of_round hG hsem hcan.1 hc0 hc2 (q := a.mag / 2) (rm := .nte)
+      (by have := ha.le_mag hca; linarith)
+    rw [hc]
+    simp only [Spec.scaleExact, hca, ha.sign, ha.sem]
+    congr 1
+  · have he : a.scale (-1) .nte = a := by simp [Flt.scale, Flt.isNormal, hca]
+    refine ⟨?_, fun _ => he⟩
+    rw [he]; exact ⟨ha.sem, ha.can, ha.sign, Or.inr hca⟩
+
+theorem mul_geN {G : Sem} (hG : G.WF) {a b : Flt} {c c2 : ℚ} (hc0 : 0 < c2) (hc2 : IsRep G c2)
+    (hcc : 0 ≤ c) (h2 : c2 ≤ c * c) (ha : GeN G c a) (hb : GeN G c b) :
+    GeN G c2 (a.mul b) ∧ ((a.cat = .inf ∨ b.cat = .inf) → (a.mul b).cat = .inf) := by
+  have hFa : a.sem.WF := by rw [ha.sem]; exact hG
+  have hs : b.sem = a.sem := hb.sem.trans ha.sem.symm
+  have hcan := mul_canonical a b hFa
+  have hsem : (a.mul b).sem = G := hcan.2.trans ha.sem
+  have hsa := ha.sign
+  have hsb := hb.sign
+  rcases ha.cases with hca | hca <;> rcases hb.cases with hcb | hcb
+  · refine ⟨?_, fun h => by rcases h with h | h <;> [rw [hca] at h; rw [hcb] at h] <;> cases h⟩
+    have hc := C01.mul_correct a b a.sem.rm hFa hs ha.can hb.can
+    apply geN_of_round hG hsem hcan.1 hc0 hc2 (q := a.mag * b.mag) (rm := a.sem.rm)
+      (le_trans h2 (mul_le_mul (ha.le_mag hca) (hb.le_mag hcb) hcc
+        (le_trans hcc (ha.le_mag hca))))
+    show (mulWithRm a b a.sem.rm).toRes = _
+    rw [hc, ha.sem]
+    simp [Spec.mul, Spec.isNan, Spec.isInf, Spec.isZero, hca, hcb, hsa, hsb]
+  all_goals
+    have hh : (a.mul b).cat = .inf ∧ (a.mul b).sign = false := by
+      simp [Flt.mul, mulWithRm, hca, hcb, hsa, hsb, Flt.inf]
+    exact ⟨⟨hsem, hcan.1, hh.2, Or.inr hh.1⟩, fun _ => hh.1⟩
+
+/-- `sqrt` never returns less than a representable `c2` with `c2² ≤ x` -/
+theorem sqrt_geN {G : Sem} (hG : G.WF) {x : Flt} {c c2 : ℚ} (hc0 : 0 < c2) (hc2 : IsRep G c2)
+    (h2 : c2 * c2 ≤ c) (hx : GeN G c x) {fuel : Nat} {r : Flt} (h : x.sqrtFuel fuel = some r) :
+    GeN G c2 r ∧ (x.cat = .inf → r = x) := by
+  have hF : x.sem.WF := by rw [hx.sem]; exact hG
+  rcases hx.cases with hcx | hcx
+  · refine ⟨?_, fun h => by rw [hcx] at h; cases h⟩
+    have hxP : PosN x.sem x := ⟨rfl, hx.can, hcx, hx.sign⟩
+    have C := ctx_of hF hxP
+    obtain ⟨b, I, L, _, _, hr, hmag⟩ := sqrt_result hF hxP h
+    have I' := step_inv C I
+    have L' := low_step C I L
+    have hc2' : IsRep x.sem c2 := by rw [hx.sem]; exact hc2
+    have h1 := L' c2 (isRep_wide hF hc2') hc0 (le_trans h2 (hx.le_mag hcx))
+    have h3 := rnd_ge hF x.sem.rm hc0 hc2' h1 C.max_rep_F I'.hi
+    rw [← hmag] at h3
+    rw [hx.sem] at hr
+    exact geN_of_posN hr h3
+  · have := (C12.sqrt_special x fuel).2.2 hcx hx.sign
+    rw [this] at h; cases h
+    exact ⟨⟨hx.sem, hx.can, hx.sign, Or.inr hcx⟩, fun _ => rfl⟩
+
+/-- the gaps: canonical non-negative non-NaN values of the format -/
+structure GapOK (G : Sem) (g : Flt) : Prop where
+  sem : g.sem = G
+  can : g.Canonical
+  sign : g.sign = false
+  nn : g.cat ≠ .nan
+
+/-- the variant: position of a gap in the chain `0 < subnormals < normals < +∞` -/
+def nu (G : Sem) (g : Flt) : Nat :=
+  match g.cat with
+  | .zero => 0
+  | .normal => mu G g + 1
+  | _ => ((G.emax - G.emin).toNat + 1) * 2 ^ G.p + 1
+
+/-- `¬ (a >= b)` between non-NaN gaps makes the variant drop -/
+theorem nu_lt {G : Sem} {a b : Flt} (ha : GapOK G a) (hb : GapOK G b)
+    (h : a.ge b = false) : nu G a < nu G b := by
+  obtain ⟨sa, ca, sga, na⟩ := ha
+  obtain ⟨sb, cb, sgb, nb⟩ := hb
+  unfold Flt.ge Flt.partialCmp at h
+  unfold nu
+  cases hca : a.cat <;> cases hcb : b.cat <;> simp only [hca, hcb] at h na nb ⊢
+  -- inf, _
+  · simp [sga, sgb] at h
+  · exact absurd rfl nb
+  · simp [boolToOrd, sga] at h
+  · simp [boolToOrd, sga] at h
+  -- nan, _
+  · exact absurd rfl na
+  · exact absurd rfl na
+  · exact absurd rfl na
+  · exact absurd rfl na
+  -- normal, _
+  · have := mu_bound (W := G) ⟨sa, ca, hca, sga⟩
+    omega
+  · exact absurd rfl nb
+  · obtain ⟨a1, _, _, a4, _⟩ := (Flt.canonical_normal hca).mp ca
+    obtain ⟨b1, _, _, b4, _⟩ := (Flt.canonical_normal hcb).mp cb
+    rw [sa] at a1 a4
+    rw [sb] at b1 b4
+    simp only [sga, sgb, bne_self_eq_false, Bool.false_eq_true, if_false, boolToOrd,
+      Bool.not_false, if_true] at h
+    unfold mu
+    by_cases h1 : a.exp < b.exp
+    · have : (a.exp - G.emin).toNat + 1 ≤ (b.exp - G.emin).toNat := by omega
+      have := Nat.mul_le_mul_right (2 ^ G.p) this
+      rw [Nat.add_mul, Nat.one_mul] at this
+      omega
+    · rw [if_neg h1] at h
+      by_cases h2 : a.exp > b.exp
+      · rw [if_pos h2] at h; simp at h
+      · rw [if_neg h2] at h
+        have he : a.exp = b.exp := by omega
+        rw [he]
+        rcases Nat.lt_trichotomy a.mant b.mant with h3 | h3 | h3
+        · omega
+        · rw [h3, Nat.compare_eq_eq.mpr rfl] at h; simp at h
+        · rw [Nat.compare_eq_gt.mpr h3] at h; simp at h
+  · simp [boolToOrd, sga] at h
+  -- zero, _
+  · omega
+  · exact absurd rfl nb
+  · omega
+  · simp at h
+
+/-- `+∞ >= gap` for every non-NaN gap -/
+theorem inf_ge_gap {G : Sem} {g gap : Flt} (hg : g.cat = .inf) (hs : g.sign = false)
+    (hgap : GapOK G gap) : g.ge gap = true := by
+  obtain ⟨_, _, sgb, nb⟩ := hgap
+  unfold Flt.ge Flt.partialCmp
+  cases hcb : gap.cat <;> simp [hg, hs, sgb, boolToOrd]
+  exact nb hcb
+
+/-- the gap of two finite positive means is a non-NaN value -/
+theorem gap_ok {G : Sem} (hG : G.WF) {a b : Flt} (ha : PosN G a) (hb : PosN G b) :
+    GapOK G (a.sub b).abs := by
+  have hFa : a.sem.WF := by rw [ha.sem]; exact hG
+  have hs : b.sem = a.sem := hb.sem.trans ha.sem.symm
+  have hcan := sub_canonical a b hFa hs ha.can hb.can
+  refine ⟨hcan.2.trans ha.sem, (abs_canonical _ hcan.1).1, rfl, ?_⟩
+  show (a.sub b).cat ≠ .nan
+  have hc := C01.sub_correct a b a.sem.rm hFa hs ha.can hb.can
+  intro hn
+  have hres : (subWithRm a b a.sem.rm).toRes = .nan := by
+    show (a.sub b).toRes = .nan
+    simp [Flt.toRes, hn]
+  rw [hc] at hres
+  simp only [Spec.sub, Spec.add, Spec.isNan, Spec.isInf, Spec.isZero, ha.cat, hb.cat] at hres
+  simp only [Spec.roundQ] at hres
+  revert hres
+  simp only [show (Cat.normal == Cat.nan) = false from rfl, show (Cat.normal == Cat.inf) = false from rfl,
+    show (Cat.normal == Cat.zero) = false from rfl, Bool.or_self, Bool.and_self, Bool.false_and,
+    Bool.false_eq_true, if_false]
+  split
+  · simp
+  · split
+    · rename_i _ hpos
+      exact round_ne_nan hFa hpos _ _
+    · rename_i hne hnp
+      exact round_ne_nan hFa (neg_pos.mpr (lt_of_le_of_ne (not_lt.mp hnp) hne)) _ _
+
+/-- both means are `+∞`: the loop leaves at once -/
+theorem piLoop_inf_inf (fuel : Nat) (a b t x gap : Flt) (ha : a.cat = .inf) (hb : b.cat = .inf)
+    (hca : a.Canonical) (hcb : b.Canonical) (hs : a.sign = b.sign) :
+    piLoop (fuel + 1) a b t x gap = some (a, t) := by
+  obtain ⟨a1, a2⟩ := (Flt.canonical_special (by rw [ha]; decide)).mp hca
+  obtain ⟨b1, b2⟩ := (Flt.canonical_special (by rw [hb]; decide)).mp hcb
+  have : a.beq b = true := by simp [Flt.beq, ha, hb, hs, a1, a2, b1, b2]
+  simp [piLoop, this]
+
+variable {G : Sem}
+
+/-- the fuel of the inner `sqrt` suffices for the format `G` -/
+def SqrtFuelOK (G : Sem) : Prop := (2 * G.emax - G.emin).toNat + 2 * G.p + 20 ≤ innerFuel
+
+theorem sqrtM_some (hG : G.WF) (hin : SqrtFuelOK G) (x : Flt) (hs : x.sem = G) (hc : x.Canonical) :
+    ∃ r, x.sqrtM = some r :=
+  C12.sqrt_terminates x (by rw [hs]; exact hG) hc innerFuel (by
+    unfold C12.sqrtFuelBound; rw [hs]; exact hin)
+
+/-- one mean is `+∞`: both are after this iteration, and the loop leaves at the next -/
+theorem piLoop_one_inf (hG : G.WF) (h2r : IsRep G (1/2)) (h1r : IsRep G 1)
+    (h4r : IsRep G (1/4)) (fuel : Nat) (a b t x gap : Flt)
+    (ha : GeN G (1/2) a) (hb : GeN G (1/2) b) (hinf : a.cat = .inf ∨ b.cat = .inf) :
+    ∃ r, piLoop (fuel + 1 + 1) a b t x gap = some r := by
+  obtain ⟨s1, s2⟩ := add_geN hG (by norm_num) h1r (by norm_num) ha hb
+  obtain ⟨m1, m2⟩ := mul_geN hG (by norm_num) h4r (by norm_num) (by norm_num) hb ha
+  have s3 := s2 hinf
+  have m3 := m2 hinf.symm
+  obtain ⟨g1, g2⟩ := half_geN hG (by norm_num) h2r (by norm_num) s1
+  have g3 := g2 s3
+  have hsq : (b.mul a).sqrtM = some (b.mul a) := (C12.sqrt_special _ _).2.2 m3 m1.sign
+  rw [piLoop]
+  by_cases hbeq : a.beq b = true
+  · exact ⟨_, by rw [if_pos hbeq]⟩
+  · rw [if_neg hbeq]
+    simp only [hsq]
+    split
+    · exact ⟨_, rfl⟩
+    · exact ⟨_, piLoop_inf_inf fuel _ _ _ _ _ (by rw [g3]; exact s3) m3 g1.can m1.can
+        (by rw [g1.sign, m1.sign])⟩
+
+/-- **the AGM loop terminates**: `nu gap + 2` iterations suffice -/
+theorem piLoop_terminates (hG : G.WF) (hin : SqrtFuelOK G) (h2r : IsRep G (1/2)) (h1r : IsRep G 1)
+    (h4r : IsRep G (1/4)) : ∀ (n : Nat) (a b t x gap : Flt),
+    GeN G (1/2) a → GeN G (1/2) b → GapOK G gap → nu G gap < n →
+    ∃ r, piLoop (n + 1 + 1) a b t x gap = some r := by
+  intro n
+  induction n with
+  | zero => intro a b t x gap _ _ _ h; omega
+  | succ n ih =>
+    intro a b t x gap ha hb hgap hnu
+    by_cases hinf : a.cat = .inf ∨ b.cat = .inf
+    · exact piLoop_one_inf hG h2r h1r h4r _ a b t x gap ha hb hinf
+    · obtain ⟨s1, _⟩ := add_geN hG (by norm_num) h1r (by norm_num) ha hb
+      obtain ⟨m1, _⟩ := mul_geN hG (by norm_num) h4r (by norm_num) (by norm_num) hb ha
+      obtain ⟨g1, _⟩ := half_geN hG (by norm_num) h2r (by norm_num) s1
+      obtain ⟨b', hsq⟩ := sqrtM_some hG hin (b.mul a) m1.sem m1.can
+      obtain ⟨q1, _⟩ := sqrt_geN hG (by norm_num) h2r (by norm_num) m1 hsq
+      rw [piLoop]
+      by_cases hbeq : a.beq b = true
+      · exact ⟨_, by rw [if_pos hbeq]⟩
+      · rw [if_neg hbeq]
+        simp only [hsq]
+        split
+        · exact ⟨_, rfl⟩
+        · rename_i hge
+          by_cases hinf' : ((a.add b).scale (-1) .nte).cat = .inf ∨ b'.cat = .inf
+          · exact piLoop_one_inf hG h2r h1r h4r n _ _ _ _ _ g1 q1 hinf'
+          · have hn1 : ((a.add b).scale (-1) .nte).cat = .normal := by
+              rcases g1.cases with h | h
+              · exact h
+              · exact absurd (Or.inl h) hinf'
+            have hn2 : b'.cat = .normal := by
+              rcases q1.cases with h | h
+              · exact h
+              · exact absurd (Or.inr h) hinf'
+            have hg' := gap_ok hG (g1.posN hn1) (q1.posN hn2)
+            have hlt := nu_lt hg' hgap (by simpa using hge)
+            exact ih _ _ _ _ _ g1 q1 hg' (by omega)
+
+/-- more fuel never changes a result of the AGM loop -/
+theorem piLoop_mono : ∀ (fuel : Nat) (a b t x gap : Flt) (r : Flt × Flt),
+    piLoop fuel a b t x gap = some r → piLoop (fuel + 1) a b t x gap = some r := by
+  intro fuel
+  induction fuel with
+  | zero => intro a b t x gap r h; simp [piLoop] at h
+  | succ fuel ih =>
+    intro a b t x gap r h
+    rw [piLoop] at h ⊢
+    split at h
+    · rename_i hc; rw [if_pos hc]; exact h
+    · rename_i hc; rw [if_neg hc]
+      cases hsq : (b.mul a).sqrtM with
+      | none => simp only [hsq] at h; cases h
+      | some b' =>
+        simp only [hsq] at h ⊢
+        split at h
+        · rename_i hg; rw [if_pos hg]; exact h
+        · rename_i hg; rw [if_neg hg]; exact ih _ _ _ _ _ _ h
+
+theorem piLoop_mono_le (f1 f2 : Nat) (hle : f1 ≤ f2) (a b t x gap : Flt) (r : Flt × Flt)
+    (h : piLoop f1 a b t x gap = some r) : piLoop f2 a b t x gap = some r := by
+  induction hle with
+  | refl => exact h
+  | step _ ih => exact piLoop_mono _ _ _ _ _ _ _ ih
+
+/-- **more fuel never changes the result of `pi`** -/
+theorem piFuel_stable (F : Sem) (f1 f2 : Nat) (hle : f1 ≤ f2) (r : Flt)
+    (h : piFuel f1 F = some r) : piFuel f2 F = some r := by
+  unfold piFuel at h ⊢
+  simp only at h ⊢
+  split at h
+  · cases h
+  · rename_i s2 hs2
+    split at h
+    · cases h
+    · rename_i a t hl
+      rw [piLoop_mono_le f1 f2 hle _ _ _ _ _ _ hl]
+      exact h
+
+theorem one_spec_pi {W : Sem} (hW : W.WF) : PosN W (fromU64 W 1) ∧ (fromU64 W 1).mag = 1 := by
+  have hc := C08.fromU64_correct W 1 hW (by norm_num)
+  rw [C08.fromNat_pos _ _ _ (by norm_num)] at hc
+  have r1 : IsRep W ((1:ℕ):ℚ) := by
+    have := isRep_pow hW 0 (by have := Sem.emin_le_zero hW; have := hW.2; omega)
+      (by have := Sem.emax_pos hW; omega)
+    rw [zpow_zero] at this; exact_mod_cast this
+  obtain ⟨e, m, hr, -, -, -⟩ := round_between hW .nte (by norm_num) r1 r1 (le_refl _) (le_refl _)
+  obtain ⟨p1, p2⟩ := posN_of_round hW (fromU64_canonical W 1 hW).2 (by norm_num) hr hc
+  refine ⟨p1, ?_⟩
+  rw [p2, rnd_rep hW .nte r1 (by norm_num)]; norm_num
+
+/-- `1 ≤ √2 ≤ 2` for the value the model computes, in every format and mode -/
+theorem sqrt_two_bounds (hG : G.WF) {r : Flt} (h : (fromU64 G 2).sqrtM = some r) :
+    PosN G r ∧ 1 ≤ r.mag ∧ r.mag ≤ 2 := by
+  obtain ⟨w1, w2⟩ := two_spec hG
+  have hsem : (fromU64 G 2).sem = G := w1.sem
+  have hF : (fromU64 G 2).sem.WF := by rw [hsem]; exact hG
+  have hxP : PosN (fromU64 G 2).sem (fromU64 G 2) := by rw [hsem]; exact w1
+  have C := ctx_of hF hxP
+  obtain ⟨b, I, L, _, _, hr, hmag⟩ := sqrt_result hF hxP h
+  have I' := step_inv C I
+  have L' := low_step C I L
+  rw [w2] at I' L' hmag C
+  rw [hsem] at I' L' hmag hr C
+  have r1 : IsRep G 1 := by
+    have := isRep_pow hG 0 (by have := Sem.emin_le_zero hG; have := hG.2; omega)
+      (by have := Sem.emax_pos hG; omega)
+    rwa [zpow_zero] at this
+  have r2 : IsRep G 2 := by
+    have := isRep_pow hG 1 (by have := Sem.emin_le_zero hG; have := hG.2; omega)
+      (Sem.emax_pos hG)
+    rwa [zpow_one] at this
+  have hhi : stepQ G 2 b ≤ 2 := by simpa using I'.hi
+  have h1 := L' 1 (isRep_wide hG r1) (by norm_num) (by norm_num)
+  have hpos : 0 < stepQ G 2 b := by linarith
+  refine ⟨hr, ?_, ?_⟩
+  · rw [hmag]; exact rnd_ge hG G.rm (by norm_num) r1 h1 r2 hhi
+  · rw [hmag]; exact rnd_le hG G.rm hpos r2 hhi
+
+/-- a fuel that suffices for the AGM loop of `pi` in the format `F`: the number of finite
+    non-negative values of the working format, plus 4 (crude: in practice the loop needs
+    about `log₂ p` iterations) -/
+def piFuelBound (F : Sem) : Nat :=
+  ((F.emax - F.emin).toNat + 1) * 2 ^ (F.growLog 4).p + 4
+
+/-- the loop as `piFuel` starts it (working format `G`): `√2` is available, and the loop
+    returns within the fuel bound -/
+theorem piLoop_start (hG : G.WF) (hp : 6 ≤ G.p) (hin : SqrtFuelOK G) (fuel : Nat)
+    (hfuel : ((G.emax - G.emin).toNat + 1) * 2 ^ G.p + 4 ≤ fuel) :
+    ∃ s2 a t, (fromI64 G 2).sqrtM = some s2 ∧
+      piLoop fuel (fromI64 G 1) ((fromI64 G 1).div s2) ((fromI64 G 1).div (fromI64 G 4))
+        (fromI64 G 1) (Flt.inf G false) = some (a, t) := by
+  have hmin := Sem.emin_le_zero hG
+  have hmax := Sem.emax_pos hG
+  have r1 : IsRep G 1 := by
+    have := isRep_pow hG 0 (by omega) (by omega)
+    rwa [zpow_zero] at this
+  have r2 : IsRep G (1/2) := by
+    have := isRep_pow hG (-1) (by omega) (by omega)
+    rwa [show (2:ℚ) ^ (-1:Int) = 1/2 by norm_num] at this
+  have r4 : IsRep G (1/4) := by
+    have := isRep_pow hG (-2) (by omega) (by omega)
+    rwa [show (2:ℚ) ^ (-2:Int) = 1/4 by norm_num] at this
+  have hI1 : fromI64 G 1 = fromU64 G 1 := by simp [fromI64]
+  have hI2 : fromI64 G 2 = fromU64 G 2 := by simp [fromI64]
+  rw [hI1, hI2]
+  obtain ⟨o1, o2⟩ := one_spec_pi hG
+  obtain ⟨w1, _⟩ := two_spec hG
+  obtain ⟨s2, hs2⟩ := sqrtM_some hG hin (fromU64 G 2) w1.sem w1.can
+  obtain ⟨q1, q2, q3⟩ := sqrt_two_bounds hG hs2
+  have hq0 := q1.mag_pos
+  have hquo1 : (1:ℚ)/2 ≤ (fromU64 G 1).mag / s2.mag := by
+    rw [o2, div_le_div_iff₀ (by norm_num) hq0]; linarith
+  have hquo2 : (fromU64 G 1).mag / s2.mag ≤ 1 := by
+    rw [o2, div_le_one hq0]; exact q2
+  obtain ⟨d1, d2⟩ := div_posN hG o1 q1 (by norm_num) r2 r1 hquo1 hquo2
+  have hb : GeN G (1/2) ((fromU64 G 1).div s2) :=
+    geN_of_posN d1 (by rw [d2]; exact rnd_ge hG G.rm (by norm_num) r2 hquo1 r1 hquo2)
+  have ha : GeN G (1/2) (fromU64 G 1) := geN_of_posN o1 (by rw [o2]; norm_num)
+  have hgap : GapOK G (Flt.inf G false) :=
+    ⟨rfl, Flt.inf_canonical G false, rfl, by simp [Flt.inf]⟩
+  obtain ⟨⟨a', t'⟩, hr⟩ := piLoop_terminates hG hin r2 r1 r4 (nu G (Flt.inf G false) + 1)
+    (fromU64 G 1) ((fromU64 G 1).div s2) ((fromU64 G 1).div (fromI64 G 4)) (fromU64 G 1)
+    (Flt.inf G false) ha hb hgap (Nat.lt_succ_self _)
+  have hr' := piLoop_mono_le _ fuel (by
+    have : nu G (Flt.inf G false) = ((G.emax - G.emin).toNat + 1) * 2 ^ G.p + 1 := rfl
+    rw [this]; omega) _ _ _ _ _ _ hr
+  exact ⟨s2, a', t', hs2, hr'⟩
+
+/-- **`pi` terminates in every well-formed format and every rounding mode**, provided the
+    fixed fuel `innerFuel = 200000` of the inner `sqrt` covers the bound of
+    `C12.sqrt_terminates` for the working format (`pi_terminates_small`: it does whenever
+    `e ≤ 16` and `p ≤ 50000`). -/
+theorem pi_terminates_fuel (F : Sem) (hF : F.WF)
+    (hin : (2 * F.emax - F.emin).toNat + 2 * (F.growLog 4).p + 20 ≤ innerFuel)
+    (fuel : Nat) (hfuel : piFuelBound F ≤ fuel) : ∃ r, piFuel fuel F = some r := by
+  have hG : (F.growLog 4).WF := Sem.growLog_WF hF 4
+  have hp : 6 ≤ (F.growLog 4).p := by
+    have := hF.2
+    simp only [Sem.growLog, Sem.logPrecision]
+    split <;> omega
+  obtain ⟨s2, a, t, h1, h2⟩ := piLoop_start hG hp hin fuel hfuel
+  unfold piFuel
+  simp only [h1, h2]
+  exact ⟨_, rfl⟩
+
+/-- C15/C19: **`pi` terminates** (existential form of `pi_terminates_fuel`) -/
+theorem pi_terminates (F : Sem) (hF : F.WF)
+    (hin : (2 * F.emax - F.emin).toNat + 2 * (F.growLog 4).p + 20 ≤ innerFuel) :
+    ∃ fuel r, piFuel fuel F = some r :=
+  ⟨_, pi_terminates_fuel F hF hin _ (le_refl _)⟩
+
+/-- the side condition in closed form: `3·2^(e-1) + 2·p' + 16 ≤ innerFuel`, `p'` the working
+    precision -/
+theorem inner_fuel_eq (F : Sem) (hF : F.WF) :
+    (2 * F.emax - F.emin).toNat + 2 * (F.growLog 4).p + 20
+      = 3 * 2 ^ (F.e - 1) + 2 * (F.growLog 4).p + 16 := by
+  have h1 : 1 ≤ F.e := by have := hF.1; omega
+  rw [Sem.emax_eq h1, Sem.emin_eq]
+  have hpow : 2 ^ 1 ≤ 2 ^ (F.e - 1) := Nat.pow_le_pow_right (by norm_num) (by have := hF.1; omega)
+  generalize 2 ^ (F.e - 1) = P at *
+  omega
+
+/-- the side condition on the inner fuel holds for every format with at most 16 exponent
+    bits and at most 50000 significand bits (all presets: FP16 … FP256) -/
+theorem inner_fuel_small (F : Sem) (hF : F.WF) (he : F.e ≤ 16) (hp : F.p ≤ 50000) :
+    (2 * F.emax - F.emin).toNat + 2 * (F.growLog 4).p + 20 ≤ innerFuel := by
+  have h1 : 1 ≤ F.e := by have := hF.1; omega
+  rw [Sem.emax_eq h1, Sem.emin_eq]
+  have hpow : 2 ^ (F.e - 1) ≤ 2 ^ 15 := Nat.pow_le_pow_right (by norm_num) (by omega)
+  have hlog : Nat.log2 F.p < 16 := by
+    have := hF.2
+    rw [Nat.log2_lt (by omega)]; omega
+  have hG : (F.growLog 4).p ≤ F.p + 4 + 16 := by
+    simp only [Sem.growLog, Sem.logPrecision]
+    split <;> omega
+  unfold innerFuel
+  generalize 2 ^ (F.e - 1) = P at *
+  omega
+
+theorem pi_terminates_small (F : Sem) (hF : F.WF) (he : F.e ≤ 16) (hp : F.p ≤ 50000) :
+    ∃ fuel r, piFuel fuel F = some r :=
+  pi_terminates F hF (inner_fuel_small F hF he hp)
+
+/-- … and then the result is a canonical value of the requested format -/
+theorem pi_total (F : Sem) (hF : F.WF)
+    (hin : (2 * F.emax - F.emin).toNat + 2 * (F.growLog 4).p + 20 ≤ innerFuel) :
+    ∃ r, (∀ fuel, piFuelBound F ≤ fuel → piFuel fuel F = some r) ∧ r.Canonical ∧ r.sem = F := by
+  obtain ⟨r, hr⟩ := pi_terminates_fuel F hF hin _ (le_refl _)
+  exact ⟨r, fun fuel h => piFuel_stable F _ _ h r hr, Arp.piFuel_canonical _ F hF r hr⟩
+
+end piTermination
 
 /-! ### Concrete FP16 instances -/
 
@@ -76,5 +668,36 @@ set_option maxRecDepth 100000 in
 example : piFuel 4 FP16 = some ⟨FP16, false, 1, 1608, .normal⟩ := by decide
 
 example : (eConst FP16).Canonical := (eConst_canonical FP16 (by decide)).1
+
+/-- the presets FP16 … FP128 terminate in each rounding mode (FP256 has 19 exponent bits: the
+    worst-case bound `3·2^18` of `C12.sqrt_terminates` exceeds the model's `innerFuel`) -/
+example (rm : RM) : ∃ fuel r, piFuel fuel { FP64 with rm := rm } = some r :=
+  pi_terminates_small _ (by simp [Sem.WF, FP64]) (by simp [FP64]) (by simp [FP64])
+example (rm : RM) : ∃ fuel r, piFuel fuel { FP128 with rm := rm } = some r :=
+  pi_terminates_small _ (by simp [Sem.WF, FP128]) (by simp [FP128]) (by simp [FP128])
+
+set_option maxRecDepth 1000000 in
+/-- FP256 by evaluation: eight iterations suffice in every mode, hence every fuel `≥ 8` -/
+theorem pi_terminates_FP256 (rm : RM) (fuel : Nat) (h : 8 ≤ fuel) :
+    ∃ r, piFuel fuel { FP256 with rm := rm } = some r := by
+  have h8 : ∃ r, piFuel 8 { FP256 with rm := rm } = some r := by
+    cases rm <;> exact Option.isSome_iff_exists.mp (by decide)
+  obtain ⟨r, hr⟩ := h8
+  exact ⟨r, piFuel_stable _ 8 fuel h r hr⟩
+
+set_option maxRecDepth 100000 in
+/-- termination is all that holds in the formats with two exponent bits: the constant `4`
+    of the algorithm is not representable there (`max < 4`), `t = 1/4` becomes `1/∞ = 0`
+    and the quotient `a²/t` is not a number although `π < 4` is in range -/
+example : piFuel 5 ⟨2, 4, .zero⟩ = some (Flt.nan ⟨2, 4, .zero⟩ false) := by decide
+
+-- NOT PROVED
+-- * `pi_terminates` without the hypothesis `hin` on `innerFuel`.  The hypothesis is only used
+--   for "the inner `sqrt` returns" (`C12.sqrt_terminates`, worst case over all arguments:
+--   `3·2^(e-1) + 2p + 16` iterations).  The arguments that occur here are close to 1 and need
+--   a handful of iterations (FP256, `e = 19`: `pi_terminates_FP256` by evaluation), but a proof
+--   needs an upper bound on the two means, i.e. the error analysis of the AGM iteration; the
+--   argument above only uses the lower bound `1/2`, which survives every rounding.
+-- * accuracy of the three constants (not part of this package).
 
 end Arp.C15
